@@ -1159,6 +1159,7 @@ def check_c20(tier, seed, log=print):
     nontriv = set()
     samples = []
     worst = 0.0
+    restarts_checked = 0
     for cfgname, outs in r['zoo_out'].items():
         if 'trace' not in cfgname or outs is None:
             continue
@@ -1179,6 +1180,18 @@ def check_c20(tier, seed, log=print):
                     cur['reads'].append(e[1])
             if len(attempts) >= 3:
                 nontriv.add((idx, hx))
+            # last sentence of the property (theorem lexFromI_nextPos): Lexer::next is entered at 0 and then exactly at the end
+            # of each item produced - re-reading starts at the end of the item just produced
+            items_, final_, marker_ = parse_stream(v)
+            if marker_ is None and final_ is not None:
+                npos = [e[1] for e in evs if e[0] == 'N']
+                restarts_checked += 1
+                if npos != [0] + [it[3] for it in items_]:
+                    fails.add(idx)
+                    run.violation('restart', rep_of(r, idx, cfgname, mode, hx, observed=v, next_positions=npos, item_ends=[it[3] for it in items_],
+                                                    what='a call of next does not begin at the end of the item just produced'),
+                                  key='restart|%s|%s' % (r['corpus'][idx].origin, hx))
+                    continue
             for a in attempts:
                 rd = a['reads']
                 msg = None
@@ -1202,7 +1215,7 @@ def check_c20(tier, seed, log=print):
     run.coverage.update(dict(evaluations=tn, distinct_nontrivial=len(nontriv),
                              rule='real read traces of the compiled lexers (feature verif_trace) on transition-directed inputs, self-loop run lengths 0..17 and nested-repetition definitions; '
                                   'per attempt (from Next/Trivia to the next): offsets non-decreasing, not before the start, count <= 4*(bytes examined)+8; non-trivial = >= 3 attempts; the same traces must equal the model\'s predicted trace exactly',
-                             samples=samples, worst_reads_per_byte=round(worst, 3),
+                             samples=samples, worst_reads_per_byte=round(worst, 3), runs_with_next_positions_checked=restarts_checked,
                              model_vs_impl_disagreements=dis, impl_vs_oracle_failures=len(fails)))
     return run.finish()
 
